@@ -8,7 +8,10 @@ open Atomman Atomman.C16
     plane hex atol V(9) idx(3|4 ints)    -> s a(3) b(3) | n(3 rationals, unnormalised)
     p2c setting u v w | c2p setting u v w
     reduce ints… | allidx m reduce | fromstr codepoints…
-    fam rtol atol a b c alpha beta gamma -> family-or-none + 7 predicate bits -/
+    fam rtol atol a b c alpha beta gamma -> family-or-none + 7 predicate bits
+    ONE Box object kept between lines (state of the driver):
+    bnew V(9) org(3) par(6) | bsetv V(9) par(6) | bset V(9) org(3) par(6) | bseto org(3)   -> ok
+    bfam rtol atol | bvc2c atol idx… | bplane atol idx… | bpos s(3) | brecip                 -> as fam/vc2c/plane; 3; 9 -/
 def showV3 (v : V3 Rat) : String := showRats v.toList
 def showV4 (v : V4 Rat) : String := showRats [v.a, v.b, v.c, v.d]
 
@@ -20,6 +23,22 @@ def showE {α : Type} (f : α → String) : Except Err α → String
 def quads : List Rat → List (V4 Rat)
   | a :: b :: c :: d :: rest => ⟨a, b, c, d⟩ :: quads rest
   | _ => []
+
+def cellOf? : List Rat → Option (CellParams Rat)
+  | [a, b, c, al, be, ga] => some ⟨a, b, c, al, be, ga⟩
+  | _ => none
+
+def famName : Option Family → String
+  | some f => f.toString
+  | none => "none"
+
+def showPreds (rtol atol : Rat) (p : CellParams Rat) : String :=
+  " ".intercalate ([isCubic rtol atol p, isHexagonal rtol atol p, isTetragonal rtol atol p,
+    isRhombohedral rtol atol p, isOrthorhombic rtol atol p, isMonoclinic rtol atol p,
+    isTriclinic rtol atol p].map showBool)
+
+def showFam (rtol atol : Rat) (p : CellParams Rat) : String :=
+  famName (identifyFamily rtol atol p) ++ " " ++ showPreds rtol atol p
 
 def handleC16 (toks : List String) : String :=
   match toks with
@@ -99,15 +118,73 @@ def handleC16 (toks : List String) : String :=
     | none => err "format"
   | "fam" :: rest =>
     match parseRats? rest with
-    | some [rtol, atol, a, b, c, al, be, ga] =>
-      let p : CellParams Rat := ⟨a, b, c, al, be, ga⟩
-      let name := match identifyFamily rtol atol p with
-        | some f => f.toString
-        | none => "none"
-      name ++ " " ++ " ".intercalate ([isCubic rtol atol p, isHexagonal rtol atol p, isTetragonal rtol atol p,
-        isRhombohedral rtol atol p, isOrthorhombic rtol atol p, isMonoclinic rtol atol p,
-        isTriclinic rtol atol p].map showBool)
+    | some [rtol, atol, a, b, c, al, be, ga] => showFam rtol atol ⟨a, b, c, al, be, ga⟩
     | _ => err "format"
   | _ => err "op"
 
-def main : IO Unit := runDriver handleC16
+/-- the object-level operations: the state is the one `Box` object the harness is working on. -/
+def stepC16 (st : Option (BoxObj Rat)) (toks : List String) : Option (BoxObj Rat) × String :=
+  match toks with
+  | "bnew" :: rest =>
+    match parseRats? rest with
+    | some xs =>
+      match M3.ofList? (xs.take 9), V3.ofList? ((xs.drop 9).take 3), cellOf? (xs.drop 12) with
+      | some V, some org, some p => (some (BoxObj.new V org p), "ok")
+      | _, _, _ => (st, err "format")
+    | none => (st, err "format")
+  | "bsetv" :: rest =>
+    match st, parseRats? rest with
+    | some o, some xs =>
+      match M3.ofList? (xs.take 9), cellOf? (xs.drop 9) with
+      | some V, some p => (some (o.setVects V p), "ok")
+      | _, _ => (st, err "format")
+    | _, _ => (st, err "format")
+  | "bset" :: rest =>
+    match st, parseRats? rest with
+    | some o, some xs =>
+      match M3.ofList? (xs.take 9), V3.ofList? ((xs.drop 9).take 3), cellOf? (xs.drop 12) with
+      | some V, some org, some p => (some (o.set V org p), "ok")
+      | _, _, _ => (st, err "format")
+    | _, _ => (st, err "format")
+  | "bseto" :: rest =>
+    match st, parseRats? rest with
+    | some o, some [x, y, z] => (some (o.setOrigin ⟨x, y, z⟩), "ok")
+    | _, _ => (st, err "format")
+  | "bfam" :: rest =>
+    match st, parseRats? rest with
+    | some o, some [rtol, atol] =>
+      -- `BoxObj.identifyFamily` and the seven predicates of the current cell
+      (st, famName (o.identifyFamily rtol atol) ++ " " ++ showPreds rtol atol o.par)
+    | _, _ => (st, err "format")
+  | "bvc2c" :: atol :: rest =>
+    match st, parseRat? atol, parseRats? rest with
+    | some o, some atol, some idx => (st, showE showV3 (o.vectorCrystalToCartesian atol idx))
+    | _, _, _ => (st, err "format")
+  | "bplane" :: atol :: rest =>
+    match st, parseRat? atol, parseInts? rest with
+    | some o, some atol, some idx =>
+      match o.planeCrystalToCartesianUnnorm atol idx with
+      | .error e => (st, e.toString)
+      | .ok n =>
+        let hkl := match idx with
+          | [h, k, _, l] => (h, k, l)
+          | [h, k, l] => (h, k, l)
+          | _ => (0, 0, 0)
+        match planeInPlane hkl.1 hkl.2.1 hkl.2.2 with
+        | .ok (a, b, s) => (st, showInts ([s] ++ a.toList ++ b.toList) ++ " | " ++ showV3 n)
+        | .error e => (st, e.toString)
+    | _, _, _ => (st, err "format")
+  | "bpos" :: rest =>
+    match st, parseRats? rest with
+    | some o, some [x, y, z] => (st, showV3 (o.relToCart ⟨x, y, z⟩))
+    | _, _ => (st, err "format")
+  | ["brecip"] =>
+    match st with
+    | some o =>
+      if M3.det o.box.vects = 0 then (st, "err:linalg") else
+      let (o', r) := o.reciprocalVects
+      (some o', showRats r.toList)
+    | none => (st, err "format")
+  | _ => (st, handleC16 toks)
+
+def main : IO Unit := runDriverS stepC16 none
